@@ -373,6 +373,54 @@ fn rand_history(r: &mut Rng, len: usize, pool: &[String], with_sync: bool, mixed
     ops
 }
 
+/// like `rand_history`, with `copy` (fs::copy) and `clone` (File::try_clone) mixed in
+fn rand_history_api(r: &mut Rng, len: usize, pool: &[String], host: usize) -> Vec<String> {
+    let mut sh = Shadow::new();
+    let mut ops = vec![];
+    if r.chance(2, 3) {
+        ops.push(format!("s{host} mkdir /d"));
+        sh.dirs.push("/d".into());
+    }
+    let files: Vec<&String> = pool.iter().filter(|p| p.ends_with("/a") || p.ends_with("/b")).collect();
+    for _ in 0..len {
+        let front = if r.chance(1, 3) { "t" } else { "s" };
+        let actor = format!("{front}{host}");
+        match r.below(10) {
+            0 | 1 => {
+                let p = if !sh.files.is_empty() && r.chance(5, 6) { r.pick(&sh.files).clone() } else { (*r.pick(&files)).clone() };
+                let q = if r.chance(1, 8) { "/d".to_string() } else { (*r.pick(&files)).clone() };
+                if sh.files.contains(&p) && sh.parent_ok(&q) && !sh.dirs.contains(&q) && !sh.files.contains(&q) {
+                    sh.files.push(q.clone());
+                }
+                ops.push(format!("{actor} copy {p} {q}"));
+            }
+            2 | 3 => {
+                let s = r.below(3);
+                let s2 = r.below(3);
+                // move the source cursor away from 0 first and use the clone's cursor right after
+                let probe = sh.open[s] && r.chance(2, 3);
+                if probe {
+                    ops.push(format!("{actor} seek {s} start {}", 1 + r.below(4)));
+                }
+                if sh.open[s] {
+                    sh.open[s2] = true;
+                }
+                ops.push(format!("{actor} clone {s} {s2}"));
+                if probe {
+                    match r.below(4) {
+                        0 => ops.push(format!("{actor} write {s2} {}", hex(*r.pick(&DATA[..])))),
+                        1 => ops.push(format!("{actor} read {s2} 3")),
+                        2 => ops.push(format!("{actor} seek {s2} cur 0")),
+                        _ => ops.push(format!("{actor} write {s} {}", hex(*r.pick(&DATA[..])))),
+                    }
+                }
+            }
+            _ => ops.push(rand_op(r, &mut sh, pool, true, &actor)),
+        }
+    }
+    ops
+}
+
 // ---------------------------------------------------------------- families
 
 pub fn generate(
@@ -456,6 +504,19 @@ pub fn generate(
                     ops.push("s0 dump".into());
                     ops.push("s1 dump".into());
                     emit(Case { family: "iso".into(), seed: seed.wrapping_add(i as u64), cfg: cfg(0, 0, 1, default_pool()), ops });
+                }
+            }
+            if want("api") && !search {
+                // fs::copy and File::try_clone (own rng: the families above stay byte-identical)
+                let mut ra = Rng::new(seed ^ 0xA11CE);
+                let n = cases.map(|c| c / 10).unwrap_or(if thorough { 8000 } else { 1500 });
+                for i in 0..n {
+                    let len = 3 + ra.below(10);
+                    let mut ops = rand_history_api(&mut ra, len, &default_pool(), 0);
+                    let at = ra.below(ops.len() + 1);
+                    ops.insert(at, "s0 dump".to_string());
+                    ops.push("t0 dump".to_string());
+                    emit(Case { family: "api".into(), seed: seed.wrapping_add(i as u64), cfg: cfg(0, 0, 1 + i as u64, default_pool()), ops });
                 }
             }
         }
@@ -572,17 +633,69 @@ pub fn generate(
                 }
             }
             if want("sim") && !search {
-                let n = cases.map(|c| c / 20).unwrap_or(if thorough { 300 } else { 30 });
+                // through a real turmoil::Sim: the software parks, or has already returned Ok when
+                // Sim::crash comes (host down); crash by name / by regex set / twice; the dump runs in
+                // the next incarnation; crash - continue - crash - crash-after-return.
+                let n = cases.map(|c| c / 20).unwrap_or(if thorough { 1500 } else { 150 });
+                let vias = ["sim", "sim-ret", "sim-retlate"];
+                let crashes = ["s0 crash", "s0 crash re", "s0 crash twice"];
                 for i in 0..n {
-                    let len = 3 + r.below(8);
-                    let hist = rand_history(&mut r, len, &default_pool(), true, false, 0);
+                    let len = 2 + r.below(8);
+                    let hist = rand_history(&mut r, len, &default_pool(), true, true, 0);
                     let k = r.below(hist.len() + 1);
-                    let mut ops: Vec<String> = hist[..k].to_vec();
+                    let (sp, bl) = match i % 5 { 3 => (50, 0), 4 => (0, 2), _ => (0, 0) };
+                    for via in vias.iter() {
+                        // (a) crash after a prefix, dump from the next incarnation
+                        let mut ops: Vec<String> = hist[..k].to_vec();
+                        ops.push(r.pick(&crashes[..]).to_string());
+                        ops.push("s0 dump".into());
+                        let mut c = cfg(sp, bl, 1 + i as u64, default_pool());
+                        c.via = via.to_string();
+                        emit(Case { family: via.to_string(), seed: seed.wrapping_add(i as u64), cfg: c.clone(), ops });
+                        // (b) crash - continue - crash, and once more after the last incarnation is over
+                        let mut ops: Vec<String> = hist[..k].to_vec();
+                        ops.push(r.pick(&crashes[..]).to_string());
+                        ops.push("s0 dump".into());
+                        ops.extend(hist[k..].iter().cloned());
+                        ops.push(r.pick(&crashes[..]).to_string());
+                        ops.push("t0 dump".into());
+                        ops.push("s0 crash".into());
+                        ops.push("s0 dump".into());
+                        emit(Case { family: format!("{}-cc", via), seed: seed.wrapping_add(i as u64), cfg: c, ops });
+                    }
+                }
+                // the macro alphabet, every history of length 2 (thorough: 3), software returns, crash, dump
+                let alpha = alphabet(true);
+                let l = if thorough { 3 } else { 2 };
+                enumerate(&alpha, l, &mut |idx| {
+                    let mut ops = vec![];
+                    for i in idx.iter() {
+                        expand(&alpha[*i], "s0", &mut ops);
+                    }
                     ops.push("s0 crash".into());
                     ops.push("s0 dump".into());
-                    let mut c = cfg(0, 0, 1, default_pool());
-                    c.via = "sim".into();
-                    emit(Case { family: "sim".into(), seed: seed.wrapping_add(i as u64), cfg: c, ops });
+                    let mut c = cfg(0, 0, 1, small_pool());
+                    c.via = "sim-ret".into();
+                    emit(Case { family: format!("sim-ret-exh{}", l), seed, cfg: c, ops });
+                });
+            }
+            if want("api") && !search {
+                // fs::copy and File::try_clone before a crash (own rng, see C10)
+                let mut ra = Rng::new(seed ^ 0xA11CE);
+                let n = cases.map(|c| c / 10).unwrap_or(if thorough { 3000 } else { 400 });
+                for i in 0..n {
+                    let len = 3 + ra.below(9);
+                    let hist = rand_history_api(&mut ra, len, &default_pool(), 0);
+                    let (sp, bl) = match i % 4 { 1 => (0, 2), 2 => (50, 0), _ => (0, 0) };
+                    for k in 1..=hist.len() {
+                        if !(hist[k - 1].contains(" copy ") || hist[k - 1].contains(" clone ") || k == hist.len() || ra.chance(1, 3)) {
+                            continue;
+                        }
+                        let mut ops: Vec<String> = hist[..k].to_vec();
+                        ops.push("s0 crash".into());
+                        ops.push("s0 dump".into());
+                        emit(Case { family: "api".into(), seed: seed.wrapping_add(i as u64), cfg: cfg(sp, bl, 1 + i as u64, default_pool()), ops });
+                    }
                 }
             }
         }
